@@ -55,11 +55,14 @@ def t3(sx, nbr, nbw, nmaxb, oldlens, lens, emulated, ic_code=0xEE, concrete=Fals
     return ndefflow.roundtrip(sx, w, n)
 
 
-def t4(sx, ver, mle, mlc, mfs, oldlens, lens, typ, fsci, aid_v=2, again=None):
+def t4(sx, ver, mle, mlc, mfs, oldlens, lens, typ, fsci, aid_v=2, again=None, fid=0xE104, more_tlvs=()):
     oldlen = sx.pick("oldlen", oldlens)
     mle = sx.int("mle", mle[0], mle[1])
     mlc = sx.int("mlc", mlc[0], mlc[1])
-    w = worlds.T4World(sx, ver, mle, mlc, mfs, oldlen, typ=typ, fsci=fsci, aid_v=aid_v)
+    w = worlds.T4World(sx, ver, mle, mlc, mfs, oldlen, typ=typ, fsci=fsci, aid_v=aid_v,
+                       fid=fid, more_tlvs=[tuple(t) for t in more_tlvs])
+    if fid != 0xE104:
+        sx.reach("t4_other_file_identifier")
     w.again = again
     if again is not None:
         w.long_trick = True
@@ -294,6 +297,15 @@ def partitions(tier):
                           params=dict(ver=ver, mle=[15, 0xFFFF], mlc=[1, 0xFFFF], mfs=16,
                                       oldlens=[0, 3], lens=[0, 1, 7, "cap", "cap+1"],
                                       typ=typ, fsci=fsci)))
+    # other file identifiers than E104h; a proprietary file control TLV behind
+    # the NDEF File Control TLV
+    for fid, more in ((0x0001, []), (0xE105, [[0x05, 0x06, 0xE1, 0x06, 0x00, 0x08, 0x00, 0x00]]),
+                      (0x8F3E, [])):
+        for ver in (0x20, 0x30):
+            parts.append(dict(name="t4:%02x:fid=%04X" % (ver, fid), fn="t4",
+                              params=dict(ver=ver, mle=[15, 15], mlc=[1, 9], mfs=24, oldlens=[0, 3],
+                                          lens=[0, 5, "cap", "cap+1"], typ="A", fsci=8, fid=fid,
+                                          more_tlvs=more)))
     # NDEF application version 1 (AID ...00): selected after the version 2 AID failed
     parts.append(dict(name="t4:aid-v1", fn="t4",
                       params=dict(ver=0x10, mle=[15, 0xFFFF], mlc=[1, 0xFFFF], mfs=16, oldlens=[0, 3],
@@ -310,7 +322,7 @@ def partitions(tier):
     return parts
 
 
-MUST_REACH = ["ctl_tlv_byte_offset_beyond_page_size", "second_write_on_same_object", "second_write_changes_length_format", "oversize_rejected", "empty_message_written", "three_byte_length",
+MUST_REACH = ["t4_other_file_identifier", "ctl_tlv_byte_offset_beyond_page_size", "second_write_on_same_object", "second_write_changes_length_format", "oversize_rejected", "empty_message_written", "three_byte_length",
               "message_fills_capacity", "rsv_inside_message", "rsv_before_ndef_tlv",
               "rsv_beyond_data_area", "rsv_at_end_of_data_area", "rsv_after_message",
               "t1_message_spans_reserved_blocks", "nxp_vendor_class", "felica_vendor_class"]
